@@ -63,7 +63,7 @@ impl Engine for St {
             "C03" => vec![p("interop.ours_to_ref", 15000, 500_000), p("interop.ref_to_ours", 8000, 300_000)],
             "C11" => vec![p("filter.inverse", 20000, 600_000), p("filter.ref", 12000, 400_000), p("bcj2.roundtrip", 6000, 200_000)],
             "C04" => vec![p("corrupt.bitflip", 500, 8000), p("corrupt.random", 30000, 1_000_000), p("corrupt.field", 20000, 600_000), p("corrupt.nonformat", 10000, 200_000)],
-            "C06" => vec![p("hostile.random", 60000, 3_000_000), p("hostile.mutated", 30000, 1_000_000), p("hostile.fields", 12000, 300_000), p("hostile.params", 12000, 300_000), p("hostile.many", 60, 600)],
+            "C06" => vec![p("hostile.random", 60000, 3_000_000), p("hostile.mutated", 30000, 1_000_000), p("hostile.fields", 12000, 300_000), p("hostile.params", 12000, 300_000), p("hostile.grammar", 40000, 1_500_000), p("hostile.many", 60, 600)],
             "C07" => vec![p("history.write", 12000, 300_000), p("history.read", 12000, 300_000)],
             "C12" => vec![p("concat.xz", 40000, 1_000_000), p("concat.lzip", 20000, 500_000)],
             "C13" => vec![p("determ.repeat", 12000, 400_000), p("determ.partition", 12000, 400_000)],
@@ -152,7 +152,7 @@ impl Engine for St {
             },
             "C06" => PropMeta {
                 level: "exploration",
-                rule: "hostile.random: random / low-entropy / zero strings, raw or behind the format's magic or a plausible header, into LZMA (.lzma header), LZMA2, XZ, LZIP, each BCJ, Delta and BCJ2 (four streams cut from the bytes) readers. hostile.mutated: valid streams with 1-4 storage faults, XZ header/footer CRCs recomputed in half of the runs so damage reaches LZMA2. hostile.fields: one size/count/property field at an extreme (index record count up to 2^62 with CRC fix-up, dictionary property 40, LZIP 512 MiB dictionary, member_size lies, .lzma dict 2^32-1 / size 2^64-1, LZMA2 chunk sizes). hostile.params: valid stream, hostile caller parameters (props 0-255, dict 0..2^32-1, size 0..2^64-1, lc/lp/pb out of range). hostile.many: up to 60000 (200000 thorough) empty XZ streams / LZIP members / 1-byte LZMA2 chunks. After the first error three more reads are issued. Monitors: panic (caught), abort / stack overflow (worker death attributed to the seed), sticky Interrupted, output cap len*20000+16 MiB, peak heap <= declared dictionary + 64*len + 4*output + 16 MiB + 2*largest read buffer.".into(),
+                rule: "hostile.random: random / low-entropy / zero strings, raw or behind the format's magic or a plausible header, into LZMA (.lzma header), LZMA2, XZ, LZIP, each BCJ, Delta and BCJ2 (four streams cut from the bytes) readers. hostile.mutated: valid streams with 1-4 storage faults, XZ header/footer CRCs recomputed in half of the runs so damage reaches LZMA2. hostile.fields: one size/count/property field at an extreme (index record count up to 2^62 with CRC fix-up, dictionary property 40, LZIP 512 MiB dictionary, member_size lies, .lzma dict 2^32-1 / size 2^64-1, LZMA2 chunk sizes). hostile.params: valid stream, hostile caller parameters (props 0-255, dict 0..2^32-1, size 0..2^64-1, lc/lp/pb out of range). hostile.grammar: container headers written from the formats' grammar with every token free (XZ block headers whose filter list ends at any token or byte, non-minimal VLIs, reserved flag bits, lying sizes, non-zero padding, index record counts up to 2^63-1, CRC right in 70%; LZIP header/trailer and .lzma header fields free). hostile.many: up to 60000 (200000 thorough) empty XZ streams / LZIP members / 1-byte LZMA2 chunks. After the first error three more reads are issued. Monitors: panic (caught), abort / stack overflow (worker death attributed to the seed), sticky Interrupted, output cap len*20000+16 MiB, peak heap <= declared dictionary + 64*len + 4*output + 16 MiB + 2*largest read buffer.".into(),
                 assumptions: vec!["the declared dictionary size is taken from a tolerant scan of the bytes (largest plausible declaration)".into(), "allocation failure cannot be injected as a recoverable fault in Rust; requests above 8 GiB are refused and abort the worker, which is reported".into()],
                 real: real.clone(), stubs: stubs.clone(), exhaustive_part: None,
             },
